@@ -131,9 +131,15 @@ def worker(job):
                     run_concrete(inst2.body, s_["inputs"])
                 except Exception:
                     pass
-            out["js_triples"] = inst2.js_triples(
+            triples = inst2.js_triples(
                 [s_["witness"] for s_ in out["samples"]] + [f["witness"] for f in out["failures"][:5]]
             )
+            out["js_triples"] = []
+            for t in triples:  # through JSON: what the independent validator is given (and picklable)
+                try:
+                    out["js_triples"].append(json.loads(json.dumps(t)))
+                except (TypeError, ValueError):
+                    pass
         if res.failures:
             out["status"] = "violated"
         elif res.exhausted:
@@ -149,7 +155,23 @@ def worker(job):
 
 def _child(job, conn):
     try:
-        conn.send(worker(job))
+        import pickle
+
+        res = worker(job)
+        try:
+            import io
+
+            class Strict(pickle.Pickler):
+                def reducer_override(self, obj):
+                    mod = getattr(obj if isinstance(obj, type) else type(obj), "__module__", "") or ""
+                    if mod.startswith(("vfprog", "vf_c", "vf_prog")):
+                        raise pickle.PicklingError(f"object of generated module {mod}: {type(obj).__name__}")
+                    return NotImplemented
+
+            Strict(io.BytesIO()).dump(res)
+        except Exception as e:  # objects of a generated module must not cross the pipe
+            res = {"job": job, "status": "error", "failures": [], "error": f"unpicklable result: {type(e).__name__}: {e}"}
+        conn.send(res)
     except BaseException as e:  # noqa
         try:
             conn.send({"job": job, "status": "error", "failures": [], "error": repr(e)})
